@@ -1,11 +1,23 @@
 (* C08 proofs, part 9: two-ended links for every operation; handle caches vs a fresh look-up. *)
 From Coq Require Import List NArith Bool Lia Arith PeanoNat.
 From FIM Require Import Model.T8Graph Model.T8Ops Proofs.T8Frame Proofs.T8Query Proofs.T8Hoare Proofs.T8Sound
-     Proofs.T8Complete Proofs.T8Closed Proofs.T8Top.
+     Proofs.T8Complete Proofs.T8Closed Proofs.T8Top Proofs.T8Inv.
 Import ListNotations.
 
 Lemma J1_init g : J1 g (g, []).
 Proof. split; [apply cons_init | intros l i j _ []]. Qed.
+
+Lemma LI_del g D n : LI g D -> ~ In n D ->
+  class_of g n = CNS \/ class_of g n = CComp \/ class_of g n = CNode -> LI g (n :: D).
+Proof.
+  intros H _ Hc l i j Hl [<-|Hi]; [|right; apply (H l i j Hl Hi)].
+  exfalso. destruct Hl as [_ [_ Hm]]. assert (class_of g n = CCP) by (apply (cpn_class g l); apply Hm; auto).
+  destruct Hc as [A|[A|A]]; congruence.
+Qed.
+
+Lemma LI_cp g s s' n dp : cons g s -> LI g (snd s) -> class_of g n = CCP ->
+  remove_cp_and_links n dp s = (inl tt, s') -> LI g (snd s').
+Proof. intros C L _ E. destruct (remove_cp_LI g n dp s s' (conj C L) E) as [_ H]. exact H. Qed.
 
 Theorem links2_exec ex o cs g r g' tr :
   run (exec ex o cs) g = (inl r, (g', tr)) -> LI g tr.
@@ -42,6 +54,9 @@ Proof.
       pose proof (PresJ_disconnect_peers_of g (fun _ => False) i _ _ _ (J4_init g) E0) as [HJ _].
       destruct HJ as [[C1 [L1 _]] _].
       destruct (remove_cp_LI g _ _ _ _ (conj C1 L1) E1) as [_ H]. exact H.
+    + (* prune after C08-8: not closing (a sub-interface goes without its port), LI by the generic lifting *)
+      assert (E' : run (exec ex OPrune8 cs) g = (inl r, (g', tr))) by exact E.
+      exact (lift_exec g (LI g) (LI_del g) (LI_cp g) (fun l i j _ H => match H with end) ex OPrune8 cs r g' tr eq_refl E').
 Qed.
 
 (* a fresh look-up of a surviving service / port handle after the operation: the old interfaces that survive *)
